@@ -13,6 +13,7 @@
    This file contains only the property theorems; proofs are in Proofs/ResTracker*.v. *)
 From Coq Require Import ZArith List Bool String.
 Require Import JV.Model.ResTracker JV.Proofs.ResTracker JV.Proofs.ResTrackerSpec.
+Require Import JV.Model.TempManager JV.Proofs.TempManager.
 Import ListNotations.
 Open Scope Z_scope.
 
@@ -173,6 +174,53 @@ Proof.
   intros s. split; [apply readlines_concat|]. split; [apply readlines_nonempty | apply readlines_newline_last].
 Qed.
 Print Assumptions C20_stream.
+
+(* ---------------------------------------------------------------------------------------------
+   Client side (Model/TempManager.v): TemporaryResourcesManager + the reducer's file life-cycle +
+   delete_folder, composed with the tracker loop through a FIFO pipe.  Events are fine grained
+   (one tracker request / one file-system operation / one half of _clean_temporary_resources),
+   "killed at any point" = after ANY event list, with the tracker lagging behind arbitrarily. *)
+
+(* whatever of ours is on disk is accounted for: every temporary folder on disk belongs to a
+   context whose folder is registered with the tracker once the tracker has read what is already
+   in the pipe, and every temporary file on disk lies inside such a folder *)
+Theorem C20_manager_invariant : forall evs,
+  let w := run_events world0 evs in
+  (forall c, In c (w_folders w) -> 0 < pend w (Folder, fold_name c)) /\
+  (forall c f, In (c, f) (w_files w) -> In c (w_folders w)).
+Proof.
+  intros evs w. destruct (run_events_inv evs world0 Inv_world0) as [W R [A B]]. fold w in W, R, A, B.
+  split; [intros c H; apply R, A, H | exact B].
+Qed.
+Print Assumptions C20_manager_invariant.
+
+(* end state: the clients are killed after any history (no atexit finalizer runs), the tracker
+   reads the rest of the pipe, gets EOF and runs its finally block: nothing of ours is left *)
+Theorem C20_manager_kill_clean : forall evs, disk_after_kill (run_events world0 evs) = ([], []).
+Proof. intros evs. apply kill_leaves_nothing, run_events_inv, Inv_world0. Qed.
+Print Assumptions C20_manager_kill_clean.
+
+(* the try block of _clean_temporary_resources, in the order of the code: nothing (guard false);
+   or delete_folder raised and NOTHING else happened (the folder is still on disk, still cached,
+   still registered); or delete_folder succeeded and only THEN the UNREGISTER is sent *)
+Theorem C20_manager_order : forall w c allow,
+  (snd (ev_step w (ECleanFolder c allow)) = [] /\ fst (ev_step w (ECleanFolder c allow)) = w) \/
+  (snd (ev_step w (ECleanFolder c allow)) = [ADeleteFolder c false] /\ fst (ev_step w (ECleanFolder c allow)) = w /\
+   In c (w_folders w)) \/
+  (snd (ev_step w (ECleanFolder c allow)) = [ADeleteFolder c true; ASend (QUnregister Folder (fold_name c))] /\
+   ~ In c (w_folders (fst (ev_step w (ECleanFolder c allow))))).
+Proof. exact clean_folder_actions. Qed.
+Print Assumptions C20_manager_order.
+
+(* the order matters: with UNREGISTER sent before delete_folder (NOT the code) a folder whose file
+   still has another registered user survives the kill *)
+Definition C20_order_witness : list event :=
+  [ENewContext 1; EMkdir 1; ERegFile 1 0; ERegFile 1 0; EWrite 1 0; ECleanFiles 1 false; ECleanFolder 1 false].
+Theorem C20_manager_order_matters :
+  disk_after_kill (run_events world0 C20_order_witness) = ([], []) /\
+  disk_after_kill (run_events_swapped world0 C20_order_witness) = ([1%nat], []).
+Proof. split; vm_compute; reflexivity. Qed.
+Print Assumptions C20_manager_order_matters.
 
 (* non-vacuity: a history with a name containing ':', an unbalanced request, malformed lines, a
    deletion in the loop and a non-trivial EOF phase (file before folder, insertion order) *)
